@@ -4,7 +4,7 @@
 budget="${1:-45}"; pat="${2:-}"
 out="${3:-/verif/seeded/SWEEP.txt}"
 : > "$out.tmp"
-declare -A EXTRA=( [C01]="C09" [C02]="C03 C20" [C03]="C05 C11" [C04]="C03 C11" [C05]="C16" [C08]="C01" [C09]="C01" [C10]="" [C11]="" [C13]="" [C14]="C01" [C15]="" [C16]="" [C17]="" [C20]="" )
+declare -A EXTRA=( [C01]="C09" [C02]="C01 C09" [C03]="C16 C20" [C04]="C05" [C05]="C16" [C08]="C20" [C09]="C01 C02" [C10]="" [C11]="C16" [C13]="" [C14]="C20 C02" [C15]="" [C16]="C05" [C17]="C05" [C20]="C03 C02" )
 for d in /verif/seeded/*/; do
   n=$(basename "$d"); [ -f "$d/patch.diff" ] || continue
   [ -n "$pat" ] && [[ "$n" != $pat ]] && continue
